@@ -42,6 +42,7 @@ def vine_case(dmin=2, dmax=7, nmin=30, nmax=300):
         d = table['corr']['d']
         return {'table': table, 'vine_type': draw(st.sampled_from(['center', 'direct', 'regular'])),
                 'truncated': draw(st.one_of(st.integers(1, 8), st.just(3))),
+                'trunc_type': draw(st.sampled_from(['int', 'int', 'np.int64', 'np.int32'])),
                 'round': draw(st.sampled_from([None, None, None, 2, 1, 0])),
                 'flip': draw(st.lists(st.booleans(), min_size=d, max_size=d)),
                 'perm': draw(S.SEEDS), 'prefit_seed': draw(st.one_of(st.none(), st.none(), S.SEEDS))}
@@ -100,7 +101,9 @@ def fit_vine(case, df, random_state=None):
     old = signal.signal(signal.SIGALRM, _alarm)
     signal.alarm(120)
     try:
-        kind, err = call(vine.fit, df.copy(), truncated=case['truncated'], allow=(ValueError, Timeout), what='VineCopula.fit')
+        # the truncation level as callers produce it: a Python int, or a numpy integer (an element of np.arange, a cell)
+        t_arg = {'np.int64': np.int64, 'np.int32': np.int32}.get(case.get('trunc_type'), int)(case['truncated'])
+        kind, err = call(vine.fit, df.copy(), truncated=t_arg, allow=(ValueError, Timeout), what='VineCopula.fit')
     finally:
         signal.alarm(0)
         signal.signal(signal.SIGALRM, old)
